@@ -10,7 +10,9 @@
 //!   {"id": n, "config": "<text of .darklua.json>", "input": "src", "output": null | "out",
 //!    "config_name": path the text is written to (default ".darklua.json", found by darklua on its own only there),
 //!    "config_at": true -> Options::with_configuration_at(config_name),
-//!    "config_memory": true -> the text is parsed here and given with Options::with_configuration (no file)}
+//!    "config_memory": true -> the text is parsed here and given with Options::with_configuration (no file),
+//!    "config2": "<text>" -> after the first run the configuration file is replaced by this text, the SAME
+//!                WorkerTree is told so (source_changed(config file), as the watcher does) and processes again}
 //!       -> {"id": n, "ok": bool, "errors": [..], "panic": bool, "files": {path: content}}
 //!          a fresh `Resources::from_memory()` is filled with the tree and the configuration file,
 //!          `darklua_core::process` is run, and every file present afterwards is reported.
@@ -58,8 +60,26 @@ fn run_job(tree: &BTreeMap<String, String>, job: &Value) -> Value {
                 Err(err) => return (false, vec![format!("configuration: {}", err)]),
             }
         }
+        let second = job.get("config2").and_then(Value::as_str).map(str::to_owned);
+        let rerun_options = |input: &str, output: &Option<String>| {
+            let mut options = Options::new(input);
+            if let Some(output) = output {
+                options = options.with_output(output);
+            }
+            if config_at {
+                options = options.with_configuration_at(&config_name);
+            }
+            options
+        };
         match process(&resources, options) {
-            Ok(worker_tree) => {
+            Ok(mut worker_tree) => {
+                if let Some(second) = &second {
+                    resources.write(&config_name, second).expect("memory write");
+                    worker_tree.source_changed(&config_name);
+                    if let Err(err) = worker_tree.process(&resources, rerun_options(&input, &output)) {
+                        return (false, vec![format!("second process: {}", err)]);
+                    }
+                }
                 let errors: Vec<String> = worker_tree
                     .collect_errors()
                     .into_iter()
